@@ -33,6 +33,27 @@ Definition place_last {V} (d : V) (idx_pit : list Z) (conn : list bool) (vals ol
   let cr := map (fun p => nth p conn false) last in
   mask_assign cr (map (fun p => nth p vals d) (select cr last)) old.
 
+(* outlet results (t_outlet_k) as of /repo 82df6bf:
+     last_section  = flatnonzero(append(idx[1:] != idx[:-1], True))
+     first_section = flatnonzero(append(True, idx[1:] != idx[:-1]))
+     connected_rows = connected[last_section]; switched = FROM_NODE_T_SWITCHED[last_section]
+     outlet_section = where(switched, first_section, last_section)
+     res[connected_rows] = values[outlet_section[connected_rows]] *)
+Fixpoint fmask_from (prev : Z) (l : list Z) : list bool :=
+  match l with [] => [] | k :: r => negb (k =? prev) :: fmask_from k r end.
+Definition fmask (idx : list Z) : list bool :=       (* non-empty tables only *)
+  match idx with [] => [] | k :: r => true :: fmask_from k r end.
+
+Definition place_outlet {V} (d : V) (idx_pit : list Z) (conn sw : list bool) (vals old : list V) : option (list V) :=
+  let pos := seq 0 (length idx_pit) in
+  let last := select (gmask idx_pit) pos in
+  let first := select (fmask idx_pit) pos in
+  let cr := map (fun p => nth p conn false) last in
+  let swl := map (fun p => nth p sw false) last in
+  let outlet := map (fun x : bool * (nat * nat) => if fst x then fst (snd x) else snd (snd x))
+                    (combine swl (combine first last)) in
+  mask_assign cr (map (fun p => nth p vals d) (select cr outlet)) old.
+
 (* res.values[pt] = vals with an integer index array: sequential writes *)
 Fixpoint index_assign {V} (pt : list nat) (vals : list V) (old : list V) : list V :=
   match pt, vals with
@@ -72,6 +93,20 @@ Fixpoint expect_rows {V} (d : V) (bl : list (nat * nat)) (conn : list bool) (val
 Definition first_blocks (secs : list nat) : list (nat * nat) := map (fun s => (0, s - 1)%nat) secs.
 Definition last_blocks (secs : list nat) : list (nat * nat) := map (fun s => (s - 1, 0)%nat) secs.
 
+(* positions of the distinguished sections of the row blocks, counted from [a] *)
+Fixpoint pos_of_blocks (a : nat) (bl : list (nat * nat)) : list nat :=
+  match bl with
+  | [] => []
+  | pp :: r => (a + fst pp)%nat :: pos_of_blocks (a + block_len pp)%nat r
+  end.
+
+(* the property: row r receives the value of its outlet section - its last section, or its first one when the
+   flow is against the declared direction - iff its last section is connected *)
+Definition outlet_rows {V} (d : V) (firsts lasts : list nat) (conn sw : list bool) (vals old : list V) : list V :=
+  map (fun x : nat * nat * V => let f := fst (fst x) in let l := snd (fst x) in
+                if nth l conn false then nth (if nth l sw false then f else l) vals d else snd x)
+      (combine (combine firsts lasts) old).
+
 (* ELEMENT_IDX column of a multi-section table: set_entry_check_repeat(index, sections) *)
 Definition idx_pit_of (labels : list Z) (secs : list nat) : list Z :=
   flat_map (fun ls => repeat (fst ls) (snd ls)) (combine labels secs).
@@ -105,6 +140,7 @@ Definition ozl_eqb (a : option (list Z)) (b : list Z) : bool :=
 Record ext_case := {
   ec_numba : bool; ec_labels : list Z; ec_secs : list nat; ec_idx_pit : list Z; ec_conn : list bool;
   ec_from_ext : list bool; ec_to_ext : list bool;
+  ec_switched : list bool;
   ec_v_from : list Z; ec_v_to : list Z; ec_v_mean : list Z; ec_v_last : list Z;
   ec_old : list Z;                                   (* previous content of the result column (a sentinel) *)
   ec_res_from : list Z; ec_res_to : list Z; ec_res_mean : list Z; ec_res_last : list Z }.
@@ -115,12 +151,13 @@ Definition ext_case_ok (c : ext_case) : bool :=
   && list_eqb Bool.eqb (blocks_mask (last_blocks (ec_secs c))) (ec_to_ext c)
   && ozl_eqb (place_ext (ec_conn c) (ec_from_ext c) (ec_v_from c) (ec_old c)) (ec_res_from c)
   && ozl_eqb (place_ext (ec_conn c) (ec_to_ext c) (ec_v_to c) (ec_old c)) (ec_res_to c)
-  && ozl_eqb (place_last 0 (ec_idx_pit c) (ec_conn c) (ec_v_last c) (ec_old c)) (ec_res_last c)
+  && ozl_eqb (place_outlet 0 (ec_idx_pit c) (ec_conn c) (ec_switched c) (ec_v_last c) (ec_old c)) (ec_res_last c)
   && zl_eqb (place_mean (ec_numba c) (ec_labels c) (ec_idx_pit c) (ec_conn c) (ec_v_mean c) (ec_old c)) (ec_res_mean c)
   (* and the property itself, row by row *)
   && zl_eqb (expect_rows 0 (first_blocks (ec_secs c)) (ec_conn c) (ec_v_from c) (ec_old c)) (ec_res_from c)
   && zl_eqb (expect_rows 0 (last_blocks (ec_secs c)) (ec_conn c) (ec_v_to c) (ec_old c)) (ec_res_to c)
-  && zl_eqb (expect_rows 0 (last_blocks (ec_secs c)) (ec_conn c) (ec_v_last c) (ec_old c)) (ec_res_last c).
+  && zl_eqb (outlet_rows 0 (pos_of_blocks 0 (first_blocks (ec_secs c))) (pos_of_blocks 0 (last_blocks (ec_secs c)))
+                         (ec_conn c) (ec_switched c) (ec_v_last c) (ec_old c)) (ec_res_last c).
 
 Record pit_case := {
   pc_js : list Z; pc_tab : wtable; pc_int_start : Z;
